@@ -16,11 +16,14 @@ configuration read from the source has comma-ok assertions and the two nil guard
 left); termination of `(*Schema).validate` on every schema graph (`validate_total`); termination of
 `InternalizeRefs` on every object graph (`internalize_total`, the call graph of its unguarded functions is
 acyclic: `deref_cycles_guarded`).
-What stays partial: `visitJSON` through compositions has no visited set (finding CompositionCycle,
-`descend_total_partial` under `Ranked`, witness `witness_unguarded_cycle`); `InternalizeRefs` panics in
-`DefaultRefNameResolver` at a reference the loader left without location (findings Unresolved /
-UnwalkedRef: `addToSpec_partial` under `Located`, witnesses `witness_unresolved_pathless`,
-`witness_name_resolver_panics`).
+What stays partial: `visitJSON` through compositions and `MarshalJSON` of an internalized document have no
+visited set (findings CompositionCycle and CallbackCycle — the latter changed by 1c81ad5: InternalizeRefs
+returns, the serialisation after it does not; `descend_total_partial` under `Ranked`, witness
+`witness_unguarded_cycle`); `InternalizeRefs` panics in `DefaultRefNameResolver` at a reference the loader
+left without location (findings Unresolved / UnwalkedRef: `addToSpec_partial` under `Located`, witnesses
+`witness_unresolved_pathless`, `witness_name_resolver_panics`). Each open finding has a whole document on
+which the model's outcome differs from the spec's inside exactly its class (`witness_documents`), each
+repaired one a whole document on which they agree (`regression_documents`) — evaluated by the kernel.
 -/
 import KinModel.LoadSafety
 import KinModel.Lemmas.C20Descent
@@ -300,7 +303,8 @@ theorem validate_needs_threading (fuel : Nat) :
 theorem validate_example : validate (fun i => if i = 0 then [0] else if i = 1 then [2, 0] else if i = 2 then [1] else []) 4 1 [] = some [1, 2, 0] := by
   decide
 
-/-! ## `InternalizeRefs` terminates on every object graph — full strength (finding CallbackCycle is repaired) -/
+/-! ## `InternalizeRefs` terminates on every object graph — full strength (1c81ad5; what is left of finding
+    CallbackCycle is the serialisation AFTER it, see the unguarded descent below) -/
 
 /-- the objects `InternalizeRefs` descends through, cyclic or not (a callback whose path item refers back to
     the path item of its operation, recursive schemas, headers whose content has encodings with headers):
@@ -314,7 +318,7 @@ theorem internalize_total (g : Graph) (guarded : Nat → Bool) (rank : Nat → N
     ∃ s', gdescend g guarded fuel i vis = some s' ∧ ∀ x ∈ vis, x ∈ s' :=
   gdescend_total_aux g guarded rank hr nodes hc R hR fuel i vis hi hf
 
-/-- former finding F-C20-10 (CallbackCycle): `paths./a.get.callbacks.c = $ref C`, `C./cb = $ref #/paths/~1a` —
+/-- finding F-C20-10 (CallbackCycle), the part repaired by 1c81ad5: `paths./a.get.callbacks.c = $ref C`, `C./cb = $ref #/paths/~1a` —
     object 0 is the path item `/a`, object 1 its operation's callback, whose path item is object 0 again
     (the loader's copy shares the operations). With `derefPaths` guarded the descent returns; without the
     visited set (the code before 1c81ad5) no amount of fuel suffices. -/
@@ -336,7 +340,8 @@ theorem internalize_example :
     · subst h0; simp at hc; subst hc; simp
     · simp [h0] at hc; subst hc; simp
 
-/-! ## unguarded descent: `visitJSON` through compositions — partial (finding CompositionCycle) -/
+/-! ## unguarded descents: `visitJSON` through compositions, `MarshalJSON` through the path items of inline
+    callbacks after InternalizeRefs cleared their `$ref` — partial (findings CompositionCycle, CallbackCycle) -/
 
 /-- Full statement `∀ g stop i, ∃ fuel, (descend g stop fuel i).isSome` is false (witness below).
     Under `Ranked` (no cycle through non-stopping nodes) the descent terminates with `rank i + 1` fuel. -/
@@ -345,7 +350,9 @@ theorem descend_total_partial (g : Graph) (stop : Nat → Bool) (rank : Nat → 
   descend_total_aux g stop rank hr fuel i h
 
 /-- finding CompositionCycle: `A: {allOf: [{$ref: A}], default: 1}` — `visitXOFOperations` calls `visitJSON`
-    of the sub-schema with the same value and no visited set: no amount of fuel suffices, and no rank exists -/
+    of the sub-schema with the same value and no visited set; finding CallbackCycle:
+    `paths./a.get.callbacks.c./cb = {$ref: '#/paths/~1a'}` — after InternalizeRefs `PathItem.MarshalJSON` reaches
+    the `*Operation` it came from: no amount of fuel suffices, and no rank exists -/
 theorem witness_unguarded_cycle :
     (∀ fuel, descend (fun _ => [0]) (fun _ => false) fuel 0 = none) ∧
     ¬ ∃ rank, Ranked (fun _ => [0]) (fun _ => false) rank := by
